@@ -190,7 +190,7 @@ theorem stageS_pollX {g : E2E.Cfg} (ok : g.OK) {c : Conn} (hst : StageS g c) :
     · exact fin_now _ _ hph (.early ⟨rfl, hev, hlogp, hsc⟩)
     · exact fin_now _ _ hph (.early ⟨rfl, hev, hlogp, hsc⟩)
   | @hread r h hph hr hb _ hev hsc =>
-    exact (handler_coreSX (c := c) hph (rd_poll ok hr hb (handlerFuel_ge c.env _)) hb hstop hev hsc).mono (by omega)
+    exact (handler_coreSX (c := c) hph (rd_poll ok hr hb hr.fuel) hb hstop hev hsc).mono (by omega)
   | @hwrite r h O1 hph hw hb _ hev hsc =>
     refine (handler_coreSX (c := c) hph (write_phase hw hb ?_) hb hstop hev hsc).mono (by omega)
     have := handlerFuel_ge c.env r
